@@ -93,19 +93,23 @@ func (h *hctx) flush() {
 	for _, l := range lines {
 		if strings.ContainsRune(l, '\n') {
 			h.driverBroken = true
-			h.res.Note("driver request contains a newline")
+			h.res.Fatalf("driver request contains a newline")
 			return
 		}
 	}
 	outs, err := h.drv.AskAll(lines)
 	if err != nil {
 		h.driverBroken = true
-		h.res.Note("driver failed: %v", err)
+		h.res.Fatalf("driver failed: %v", err)
 	}
 	for i, o := range outs {
 		if i < len(cbs) {
 			cbs[i](o)
 		}
+	}
+	if len(outs) < len(cbs) && err == nil {
+		h.driverBroken = true
+		h.res.Fatalf("driver answered %d of %d requests", len(outs), len(cbs))
 	}
 }
 
@@ -113,6 +117,10 @@ func (h *hctx) flush() {
 // not recognised ("err:other") matches any model error.
 func (h *hctx) check(sig string, input any, line, impl string, soft bool) {
 	h.later(line, func(model string) {
+		if model == "bad-op" || model == "" {
+			h.res.Fatalf("driver answered %q to %.120q", model, line)
+			return
+		}
 		h.res.Compared(1)
 		if model == impl || (soft && sameVerdict(model, impl)) {
 			return
@@ -132,7 +140,7 @@ func (h *hctx) ask(line string) string {
 	out, err := h.drv.Ask(line)
 	if err != nil {
 		h.driverBroken = true
-		h.res.Note("driver failed: %v (request %.200q)", err, line)
+		h.res.Fatalf("driver failed: %v (request %.200q)", err, line)
 		return ""
 	}
 	return out
@@ -187,7 +195,7 @@ func main() {
 	h := &hctx{f: f, res: res, tt: newTermTable()}
 	drv, err := lib.StartDriver(f.Driver)
 	if err != nil {
-		res.Note("driver: %v", err)
+		res.Fatalf("driver: %v", err)
 		h.driverBroken = true
 	} else {
 		h.drv = drv
@@ -227,7 +235,7 @@ func main() {
 func runReplay(h *hctx, path string) {
 	raw, err := os.ReadFile(path)
 	if err != nil {
-		h.res.Note("cannot read replay: %v", err)
+		h.res.Fatalf("cannot read replay: %v", err)
 		return
 	}
 	var file struct {
@@ -236,7 +244,7 @@ func runReplay(h *hctx, path string) {
 	if err := json.Unmarshal(raw, &file); err != nil || file.Replay == nil {
 		// maybe the bare replay object
 		if err2 := json.Unmarshal(raw, &file.Replay); err2 != nil {
-			h.res.Note("cannot parse replay: %v", err)
+			h.res.Fatalf("cannot parse replay: %v", err)
 			return
 		}
 	}
@@ -255,7 +263,7 @@ func runReplay(h *hctx, path string) {
 		b, _ := unhx(str(rp["proto"]))
 		var pu pb.PropellerUnit
 		if err := proto.Unmarshal(b, &pu); err != nil {
-			h.res.Note("replay: %v", err)
+			h.res.Fatalf("replay: %v", err)
 			return
 		}
 		wireCase(h, &pu, str(rp["what"]))
@@ -263,7 +271,7 @@ func runReplay(h *hctx, path string) {
 		b, _ := json.Marshal(rp["scenario"])
 		var sc procScenario
 		if err := json.Unmarshal(b, &sc); err != nil {
-			h.res.Note("replay: %v", err)
+			h.res.Fatalf("replay: %v", err)
 			return
 		}
 		procCase(h, &sc)
@@ -285,7 +293,7 @@ func runReplay(h *hctx, path string) {
 		msg, _ := unhx(str(rp["msg"]))
 		validatorCase0(h, num(rp["n"]), num(rp["local"]), num(rp["publisher"]), msg, nonceOf(rp["nonce"]), uint64(num(rp["rng"])))
 	default:
-		h.res.Note("replay of kind %q is not supported", kind)
+		h.res.Fatalf("replay of kind %q is not supported", kind)
 	}
 }
 
